@@ -133,19 +133,41 @@ def showManifest (m : Manifest) : String :=
     ++ " meta=" ++ showMeta m.frags
     ++ " scan=" ++ showRows (((tagged m.frags).filter fun x => !x.2.deleted).map scanRow)
 
+def distinctNat : List Nat → Bool
+  | [] => true
+  | x :: xs => !xs.contains x && distinctNat xs
+
+/-- interpreter-level: a merge_insert whose handle shows no visible row is not run (lance then writes the new rows in
+    hash-join order); decided after `no_table` / `no_version` / `stale_unsupported`, before everything else -/
+def emptyTarget (s : St) (c : Call) : Bool :=
+  match c.op, s.ms with
+  | .base (.upsert rows), L :: _ =>
+    match s.ms.find? fun m => m.version == (match c.rv with | some v => v | none => L.version) with
+    | none => false
+    | some mv =>
+      if c.rv.isSome && !((rows.head?.map List.length) == some mv.k) then false
+      else (live mv).isEmpty
+  | _, _ => false
+
 def step (s : St) (line : String) : St × String :=
   match parseCmd (match s.ms with | m :: _ => m.version | [] => 0) line with
   | none => (s, "err parse")
   | some (.assign n fs) =>
-    match assignRowIds n fs with
-    | none => (s, "err internal")
-    | some (n', ids) => (s, "ok nrid=" ++ toString n' ++ " ids=" ++ "|".intercalate (ids.map showNatList))
+    -- ids a fragment carries were assigned earlier: below next_row_id, no id twice
+    if !((fs.flatMap fun f => f.have).all (fun i => decide (i < n)) && distinctNat (fs.flatMap fun f => f.have)) then
+      (s, "err ids")
+    else
+      match assignRowIds n fs with
+      | none => (s, "err internal")
+      | some (n', ids) => (s, "ok nrid=" ++ toString n' ++ " ids=" ++ "|".intercalate (ids.map showNatList))
   | some (.call c) =>
-    match stepCall s c with
-    | (s', .ok) =>
-      match s'.ms with
-      | m :: _ => (s', showManifest m)
-      | [] => (s', "err model")
-    | (s', .err k) => (s', "err " ++ k)
+    if emptyTarget s c then (s, "err empty_target")
+    else
+      match stepCall s c with
+      | (s', .ok) =>
+        match s'.ms with
+        | m :: _ => (s', showManifest m)
+        | [] => (s', "err model")
+      | (s', .err k) => (s', "err " ++ k)
 
 end LanceModel.C18.Driver
